@@ -45,7 +45,8 @@ def gen(rng):
     if "g" in preds:
         kinds += ["g(X)", "g(X)"]
     if "g" in preds and "h" in preds:
-        kinds += ["g(X),h(X)", "g(X),\\+h(X)", "r(X)"]
+        # m(X): the negation of a derived atom whose two proofs use one fact in both polarities
+        kinds += ["g(X),h(X)", "g(X),\\+h(X)", "r(X)", "m(X)", "m(X)"]
     if "e" in preds:
         kinds += ["e(X,Y)|Y", "e(X,Y)|X-Y", "e(a,Y)|Y", "e(X,Y)|X"]
     if "h" in preds:
@@ -75,6 +76,10 @@ def render(case):
             pass
     if kind == "r(X)":
         out.append("r(X) :- g(X), \\+h(X).")
+    if kind == "m(X)":
+        out.append("w :- \\+g(a), h(a).")
+        out.append("w :- g(a), h(b).")
+        out.append("m(X) :- g(X), \\+w.")
     goal, _, tmpl = kind.partition("|")
     tmpl = tmpl or "X"
     out.append("q(L) :- %s(%s, (%s), L)." % (case["which"], tmpl, goal))
@@ -97,6 +102,10 @@ def solutions(case, true):
         return [a[0] for a in sols("g") if ("h", a) in hset]
     if kind in ("g(X),\\+h(X)", "r(X)"):
         return [a[0] for a in sols("g") if ("h", a) not in hset]
+    if kind == "m(X)":
+        ga, ha, hb = ("g", ("a",)) in hset, ("h", ("a",)) in hset, ("h", ("b",)) in hset
+        w = (not ga and ha) or (ga and hb)
+        return [] if w else [a[0] for a in sols("g")]
     goal, _, tmpl = kind.partition("|")
     es = sols("e")
     if goal == "e(a,Y)":
@@ -169,7 +178,7 @@ def check_one(seed):
                   if not any(c.isupper() for c in k.split("(", 1)[-1].replace("X-", "")))
     if differs and set(ur) == set(ue) and all(abs(ur[k] - ue[k]) <= TOL for k in ur):
         # the same lists up to the order of their elements
-        neg = "\\+" in case["kind"] or case["kind"] == "r(X)"
+        neg = "\\+" in case["kind"] or case["kind"] in ("r(X)", "m(X)")
         out["violations"].append(("list-order:negation" if neg else "list-order",
                                   "the reported lists %s have the elements of the expected lists %s in another order"
                                   % (sorted((k, round(v, 6)) for k, v in res.items() if v > TOL),
